@@ -140,9 +140,6 @@ pub fn gen_trie(rng: &mut Rng, thorough: bool, out: &mut Vec<String>) {
     let limit = if thorough { 1usize << n.min(14) } else { 1usize << n.min(6) };
     let mut cfgs = ["wv1", "exp"].iter().cycle();
     for mask in 1..limit {
-        if !thorough && mask % 2 == 0 && mask > 16 {
-            continue;
-        }
         let set: Vec<NodeLabel> = (0..n).filter(|i| mask >> i & 1 == 1).map(|i| lab(&shorts[i])).collect();
         if set.len() > 6 {
             continue;
